@@ -19,6 +19,8 @@ import AHP.Lemmas.XPathDoc
 import AHP.Lemmas.XPathPipeline
 import AHP.Lemmas.XPathParseSteps
 import AHP.Lemmas.XPathParseFuel
+import AHP.Lemmas.XPathEntry
+import AHP.Lemmas.XPathValues
 import AHP.Gen.Tables
 namespace AHP.C14
 open AHP AHP.XPath
@@ -144,12 +146,55 @@ theorem compile_evaluate_eq_denotation (d : Doc) (hp : PreOrder d) (ss : List (S
     intro start
     exact runSteps_for nm d (desc_eq_specDesc d hp) cs ss h true (dedup start)
 
-/-- C14d (entry points): parser → its root nodes, element → itself, collection → its members;
-    every entry point is `evaluate` on that start collection, so they agree by construction. The
-    start collection is de-duplicated first. -/
-theorem entry_points_agree (d : Doc) (steps : List (Step N)) (i : Nat) :
+/-- C14d (start collection): `XPathExpression.evaluate` builds `TagCollection(curResults)` first, so only the first
+    occurrences of the start elements matter — a repeated start element is the same as one.  (Until review B this
+    instance carried the name `entry_points_agree`; it is a fact about de-duplication, not about entry points.) -/
+theorem start_collection_deduplicated (d : Doc) (steps : List (Step N)) (i : Nat) :
     evaluate nm d steps [i] = evaluate nm d steps [i, i] := by
   simp [evaluate, dedup]
+
+/-- … for every start collection: evaluating from `start` is evaluating from its first occurrences in order. -/
+theorem start_collection_first_occurrences (d : Doc) (steps : List (Step N)) (start : List Nat) :
+    evaluate nm d steps (dedup start) = evaluate nm d steps start :=
+  evaluate_dedup_start nm d steps start
+
+/-- C14d **entry points**.  The public functions that evaluate an expression text are modelled one by one as the code
+    has them (AHP/Model/XPath.lean, "Entry points": what each does with its receiver before it reaches the step driver;
+    `compile` = the constructor `XPathExpression(text)`, any function).  Then, for every document, text and constructor:
+
+    * **parser** — `getElementsByXPathExpression`, `getElementsByXPath`, `evaluate(text)`, `evaluate(text, self)`,
+      `XPathExpression(text).evaluate(parser)` and `XPathExpression(text).evaluate(parser.getRootNodes())` (list or
+      tuple) are one function of (text, document): compile, then `evaluate` from `Doc.rootNodes` — the root, or the
+      children of the invisible wrapper (`evalParser`); `evaluate(text, otherDoc)` raises;
+    * **element** — `getElementsByXPathExpression`, `getElementsByXPath`, `XPathExpression(text).evaluate(tag)` (and
+      on `[tag]` / `(tag,)`) are compile, then `evaluate` from the element itself (`evalElement`);
+    * **collection / list / tuple** — the two methods and `XPathExpression(text).evaluate` on the collection, on
+      `list(collection)` and on `tuple(collection)` are compile, then `evaluate` from the members in order
+      (`evalColl`) — except that the two *methods* answer an empty collection with an empty collection before the
+      constructor runs, so on an empty collection with a text that does not compile they return `[]` where the
+      constructor raises (`entry_points_differ_only_on_empty_invalid`);
+    * a parser is the collection of its root nodes and an element the collection of itself. -/
+theorem entry_points_agree (compile : Str → Option (List (Step N))) (d : Doc) (text : Str) :
+    (∀ (w : Bool) (e : ParserEntry), e ≠ .evaluate .other →
+        e.run compile nm d w text = evalParser compile nm d w text) ∧
+    (∀ w : Bool, (ParserEntry.evaluate .other).run compile nm d w text = none) ∧
+    (∀ (i : Nat) (e : TagEntry), e.run compile nm d i text = evalElement compile nm d i text) ∧
+    (∀ (ms : List Nat) (e : CollEntry), (ms ≠ [] ∨ (compile text).isSome = true ∨ e.isMethod = false) →
+        e.run compile nm d ms text = evalColl compile nm d ms text) ∧
+    (∀ w : Bool, evalParser compile nm d w text = (compile text).bind (fun cs => evaluate nm d cs (d.rootNodes w))) ∧
+    (∀ i : Nat, evalElement compile nm d i text = (compile text).bind (fun cs => evaluate nm d cs [i])) ∧
+    (∀ ms : List Nat, evalColl compile nm d ms text = (compile text).bind (fun cs => evaluate nm d cs ms)) ∧
+    (∀ w : Bool, evalParser compile nm d w text = evalColl compile nm d (d.rootNodes w) text) ∧
+    (∀ i : Nat, evalElement compile nm d i text = evalColl compile nm d [i] text) :=
+  ⟨fun w e he => parserEntry_run compile nm d w text e he, fun w => parserEntry_other compile nm d w text,
+   fun i e => tagEntry_run compile nm d i text e, fun ms e h => collEntry_run compile nm d ms text e h,
+   fun _ => rfl, fun _ => rfl, fun _ => rfl, fun _ => rfl, fun _ => rfl⟩
+
+/-- C14d: the one disagreement between entry points — an empty collection and a text the constructor rejects. -/
+theorem entry_points_differ_only_on_empty_invalid (compile : Str → Option (List (Step N))) (d : Doc) (text : Str)
+    (hc : compile text = none) (e : CollEntry) :
+    e.run compile nm d [] text = if e.isMethod then some [] else none :=
+  collEntry_empty_invalid compile nm d text hc e
 
 /-! #### C14f — from the TEXT of an expression -/
 
@@ -266,6 +311,178 @@ example (two mhalf : N) (h2 : nm.parse ['2'] = some two) (h5 : nm.parse ['-', '.
       d2, d5, noisyStyle, Style.sp, Style.spell, Style.spellOp, isWordOp, sepOf, needL, needR, isSpTab, wText, wLast, wConcat, wContains,
       lowerChar]
 
+/-! #### C14d/f — every entry point, from the TEXT, is the denotation from its receiver's start collection -/
+
+/-- C14d + C14f: `text_evaluate_eq_denotation` applied to each entry point.  For the text (any layout) of a writable,
+    precedence-respecting expression that the constructor accepts, on every pre-order document: every parser entry
+    point returns the denotation from the document's root nodes, every element entry point the denotation from the
+    element, every collection / list / tuple entry point the denotation from the members; when the constructor
+    raises, some predicate of the expression has no value on any tag. -/
+theorem entry_points_denote (st : Style) (d : Doc) (hp : PreOrder d) (ss : List (SurfStep N))
+    (hs : ∀ s ∈ ss, s.wf nm) (hw : ∀ s ∈ ss, ∀ p ∈ s.preds, P.wf 3 p.toP = true) :
+    match compileText nm (renderExpr st ss) with
+    | some _ =>
+      (∀ (w : Bool) (e : ParserEntry), e ≠ .evaluate .other →
+        e.run (compileText nm) nm d w (renderExpr st ss) = specEval nm d (ss.map SurfStep.toSStep) (d.rootNodes w)) ∧
+      (∀ (i : Nat) (e : TagEntry),
+        e.run (compileText nm) nm d i (renderExpr st ss) = specEval nm d (ss.map SurfStep.toSStep) [i]) ∧
+      (∀ (ms : List Nat) (e : CollEntry),
+        e.run (compileText nm) nm d ms (renderExpr st ss) = specEval nm d (ss.map SurfStep.toSStep) ms)
+    | none => ∃ s ∈ ss, ∃ p ∈ s.preds, ∀ c, evalP nm c p.toP = none := by
+  have ht := text_evaluate_eq_denotation nm st d hp ss hs hw
+  cases hc : compileText nm (renderExpr st ss) with
+  | none => rw [hc] at ht; exact ht
+  | some cs =>
+    rw [hc] at ht
+    refine ⟨?_, ?_, ?_⟩
+    · intro w e he
+      rw [parserEntry_run (compileText nm) nm d w _ e he]
+      simp [evalParser, hc, ht]
+    · intro i e
+      rw [tagEntry_run (compileText nm) nm d i _ e]
+      simp [evalElement, hc, ht]
+    · intro ms e
+      rw [collEntry_run (compileText nm) nm d ms _ e (Or.inr (Or.inl (by simp [hc])))]
+      simp [evalColl, hc, ht]
+
+/-! #### C14g — the value-level clauses of the property, against independent definitions
+
+  `Ctx.lacks`, `IsNumeric`, `numRel`, `natRel`, `specPos`/`specNth`, `specLast` (AHP/Model/XPathSpec.lean, last section) are
+  written from the property text and use none of the model's leaf functions (`applyCmp`, `rawEq`, `toFloat`, `keepTag`,
+  `isNth`, `Doc.ctx`, `nameOk`).  Numbers: where a clause speaks about particular numbers (`[2]`, `"10" > "9"`) the
+  number structure must treat decimal literals as Python does — `LawfulNum nm` (AHP/Lemmas/XPathNum.lean). -/
+
+/-- C14g **"string comparison with an absent attribute is false for '=' and true for '!='"**: on an element that
+    does not carry the attribute, `@name = q` is false and `@name != q` is true (either way round), whatever `q`
+    evaluates to — a string, a number, a truth value — as long as it is not itself an absent attribute. -/
+theorem absent_attribute_comparison (c : Ctx) (name : Str) (q : P N) (v : Val N)
+    (hs : name.contains '*' = false) (habs : c.lacks name) (hq : evalP nm c q = some v) (hv : v.isNull = false) :
+    evalP nm c (.bin (.cmp .eq) (.attr name) q) = some (.bool false) ∧
+    evalP nm c (.bin (.cmp .ne) (.attr name) q) = some (.bool true) ∧
+    evalP nm c (.bin (.cmp .eq) q (.attr name)) = some (.bool false) ∧
+    evalP nm c (.bin (.cmp .ne) q (.attr name)) = some (.bool true) := by
+  have ha := evalP_absent_attr nm c name hs habs
+  have hl := applyCmp_null_left nm v hv
+  have hr := applyCmp_null_right nm v hv
+  have hb : ∀ (o : Op) (l r : P N) (x y : Val N), evalP nm c l = some x → evalP nm c r = some y →
+      evalP nm c (.bin o l r) = applyOp nm o x y := fun o l r x y h1 h2 => by simp [evalP, h1, h2]
+  refine ⟨?_, ?_, ?_, ?_⟩
+  · rw [hb _ _ _ _ _ ha hq]; exact hl.1
+  · rw [hb _ _ _ _ _ ha hq]; exact hl.2
+  · rw [hb _ _ _ _ _ hq ha]; exact hr.1
+  · rw [hb _ _ _ _ _ hq ha]; exact hr.2
+
+/-- … at the filter: for `[@name = "s"]` / `[@name != "s"]` the ENGINE (flat pass evaluation of the tokenized
+    predicate, then the keep/drop decision) drops, resp. keeps, every element without the attribute. -/
+theorem absent_attribute_filter (d : Doc) (i : Nat) (name s : Str) (hs : name.contains '*' = false)
+    (habs : d.lacksAttr i name) :
+    (evalLevel nm (d.ctx i) (flatten (P.bin (.cmp .eq) (.attr name) (.lit (.str s))))).bind (keepTag nm d i) = some false ∧
+    (evalLevel nm (d.ctx i) (flatten (P.bin (.cmp .ne) (.attr name) (.lit (.str s))))).bind (keepTag nm d i) = some true := by
+  have h := absent_attribute_comparison nm (d.ctx i) name (.lit (.str s)) (.str s) hs (ctx_lacks_of_doc habs) rfl rfl
+  rw [flat_eval_eq_tree_eval nm _ _ (by simp [P.wf, Op.cls]), flat_eval_eq_tree_eval nm _ _ (by simp [P.wf, Op.cls]),
+    h.1, h.2.1]
+  exact ⟨rfl, rfl⟩
+
+/-- C14g **"numeric comparison is numeric whenever both sides are numeric"**: when both operands are numeric — numbers,
+    or strings that read as numbers, such as attribute values — every comparison operator answers with its relation on
+    the two NUMBERS (never with the order of the strings). -/
+theorem numeric_comparison_is_numeric (o : CmpOp) (a b : Val N) (x y : N)
+    (ha : IsNumeric nm a x) (hb : IsNumeric nm b y) :
+    applyOp nm (.cmp o) a b = some (.bool (numRel nm o x y)) :=
+  applyCmp_numeric nm o ha hb
+
+/-- … for a comparison node of a predicate -/
+theorem numeric_comparison_pred (c : Ctx) (o : CmpOp) (l r : P N) (a b : Val N) (x y : N)
+    (hl : evalP nm c l = some a) (hr : evalP nm c r = some b) (ha : IsNumeric nm a x) (hb : IsNumeric nm b y) :
+    evalP nm c (.bin (.cmp o) l r) = some (.bool (numRel nm o x y)) := by
+  have hb' : evalP nm c (.bin (.cmp o) l r) = applyOp nm (.cmp o) a b := by simp [evalP, hl, hr]
+  rw [hb']
+  exact numeric_comparison_is_numeric nm o a b x y ha hb
+
+/-- … and for decimal literals, in whatever form they arrive (number or string), the relation is the order of the
+    natural numbers: `"10" > "9"`, although `"10" < "9"` as strings. -/
+theorem decimal_strings_compare_as_numbers (hl : LawfulNum nm) (o : CmpOp) (ds1 ds2 : List (Fin 10))
+    (h1 : ds1 ≠ []) (h2 : ds2 ≠ []) :
+    applyOp nm (.cmp o) (.str (natLit ds1)) (.str (natLit ds2)) = some (.bool (natRel o (digitsVal ds1) (digitsVal ds2))) ∧
+    applyOp nm (.cmp o) (.str (natLit ds1)) (.num (nm.ofNat (digitsVal ds2))) = some (.bool (natRel o (digitsVal ds1) (digitsVal ds2))) ∧
+    applyOp nm (.cmp o) (.num (nm.ofNat (digitsVal ds1))) (.str (natLit ds2)) = some (.bool (natRel o (digitsVal ds1) (digitsVal ds2))) := by
+  have n1 := natLit_numeric nm hl ds1 h1
+  have n2 := natLit_numeric nm hl ds2 h2
+  refine ⟨?_, ?_, ?_⟩
+  · rw [numeric_comparison_is_numeric nm o _ _ _ _ n1 n2, numRel_ofNat nm hl]
+  · rw [numeric_comparison_is_numeric nm o _ _ _ _ n1 (.num _), numRel_ofNat nm hl]
+  · rw [numeric_comparison_is_numeric nm o _ _ _ _ (.num _) n2, numRel_ofNat nm hl]
+
+/-- the instance of the property text: `"10" > "9"` as numbers, the opposite as strings -/
+example : applyOp ratNum (.cmp .gt) (.str (natLit [1, 0])) (.str (natLit [9])) = some (.bool true) ∧
+    natLit [1, 0] = "10".toList ∧ natLit [9] = "9".toList ∧ strLt "10".toList "9".toList = true := by
+  refine ⟨?_, by decide, by decide, by decide⟩
+  rw [(decimal_strings_compare_as_numbers ratNum ratNum_lawful .gt [1, 0] [9] (by simp) (by simp)).1]
+  have : natRel .gt (digitsVal [1, 0]) (digitsVal [9]) = true := by decide
+  rw [this]
+
+/-- C14g **"when it is a number n, the elements that are the n-th among their same-named siblings"**: the engine's
+    keep / drop decision for a predicate whose value is the number `n` is `specNth` — one more than the number of
+    earlier rows of the table with the same parent and the same tag name equals `n`. -/
+theorem numeric_value_keeps_nth (hl : LawfulNum nm) (d : Doc) (i n : Nat) :
+    keepTag nm d i (.num (nm.ofNat n)) = some (decide (specNth d i n)) :=
+  keepTag_ofNat nm hl d i n
+
+/-- … for the whole filter step, on the tokenized predicate: `[n]` keeps exactly the current elements that are the
+    `n`-th among their same-named siblings, in order. -/
+theorem numeric_predicate_keeps_nth (hl : LawfulNum nm) (d : Doc) (n : Nat) (cur : List Nat) (hn : cur.Nodup) :
+    filterByBody nm d (flatten (P.lit (.num (nm.ofNat n)))) cur = some (cur.filter (fun i => decide (specNth d i n))) := by
+  rw [filter_eq_spec nm d _ (by simp [P.wf]) cur hn]
+  exact specFilter_nth nm hl d (fun _ => n) _ (fun _ => rfl) cur
+
+/-- … and for any well-formed predicate whose value on element `i` is the number `f i` (`[last()]`, `[1 + 1]`, …). -/
+theorem number_valued_predicate_keeps_nth (hl : LawfulNum nm) (d : Doc) (f : Nat → Nat) (p : P N)
+    (hw : P.wf 3 p = true) (hp : ∀ i, evalP nm (d.ctx i) p = some (.num (nm.ofNat (f i))))
+    (cur : List Nat) (hn : cur.Nodup) :
+    filterByBody nm d (flatten p) cur = some (cur.filter (fun i => decide (specNth d i (f i)))) := by
+  rw [filter_eq_spec nm d _ hw cur hn]
+  exact specFilter_nth nm hl d f p hp cur
+
+/-- `position()` and `last()` are `specPos` and `specLast`; hence `[last()]` keeps the last among the same-named
+    siblings. -/
+theorem position_last_spec (d : Doc) (i : Nat) :
+    evalP nm (d.ctx i) .position = some (.num (nm.ofNat (specPos d i))) ∧
+    evalP nm (d.ctx i) .last = some (.num (nm.ofNat (specLast d i))) := by
+  simp [evalP, ctx_pos, ctx_last]
+
+theorem last_predicate_keeps_last (hl : LawfulNum nm) (d : Doc) (cur : List Nat) (hn : cur.Nodup) :
+    filterByBody nm d (flatten (P.last : P N)) cur = some (cur.filter (fun i => decide (specPos d i = specLast d i))) :=
+  number_valued_predicate_keeps_nth nm hl d (specLast d) .last (by simp [P.wf]) (fun i => (position_last_spec nm d i).2) cur hn
+
+/-- C14g **"function and axis names and tag names are case-insensitive"**, at the text level.  Two written expressions
+    that differ only in the letter case of their tag names … -/
+def SameUpToCase (a b : SurfStep N) : Prop :=
+  a.dbl = b.dbl ∧ a.axis = b.axis ∧ lower a.name = lower b.name ∧ a.preds = b.preds
+
+inductive SameExprUpToCase : List (SurfStep N) → List (SurfStep N) → Prop
+  | nil : SameExprUpToCase [] []
+  | cons {a b : SurfStep N} {l1 l2 : List (SurfStep N)} :
+      SameUpToCase a b → SameExprUpToCase l1 l2 → SameExprUpToCase (a :: l1) (b :: l2)
+
+/-- … written down in two layouts that differ in anything a layout can differ in — in particular in the letter case
+    of every function name, axis name and word operator (`Style.word`) — are tokenized, and compiled, to the same
+    thing: `parseExpr` on the text with upper-case names = `parseExpr` on the lower-case text. -/
+theorem names_case_insensitive (st1 st2 : Style) (ss1 ss2 : List (SurfStep N))
+    (h1 : ∀ s ∈ ss1, s.wf nm) (h2 : ∀ s ∈ ss2, s.wf nm) (h : SameExprUpToCase ss1 ss2) :
+    parseExpr nm (renderExpr st1 ss1) = parseExpr nm (renderExpr st2 ss2) ∧
+    compileText nm (renderExpr st1 ss1) = compileText nm (renderExpr st2 ss2) := by
+  have hm : ss1.map SurfStep.toSStep = ss2.map SurfStep.toSStep := by
+    induction h with
+    | nil => rfl
+    | cons hab _ ih =>
+      obtain ⟨e1, e2, e3, e4⟩ := hab
+      simp only [List.map_cons]
+      rw [ih (fun s hs => h1 s (by simp [hs])) (fun s hs => h2 s (by simp [hs]))]
+      simp [SurfStep.toSStep, e1, e2, e3, e4]
+  constructor
+  · rw [parse_render nm st1 ss1 h1, parse_render nm st2 ss2 h2, hm]
+  · rw [compile_text_eq_compile_syntax nm st1 ss1 h1, compile_text_eq_compile_syntax nm st2 ss2 h2, hm]
+
 end
 
 /-! #### C14e — table obligations over the tables regenerated from `_body.py` on every run -/
@@ -305,5 +522,116 @@ theorem pass_order_ok :
 example : P.wf 3 (P.bin (.bool .and)
       (P.bin (.cmp .eq) (P.bin (.arith .mul) (P.bin (.arith .add) (P.attr ['n']) (P.lit (.num (1 : Nat)))) (P.lit (.num 2))) (P.lit (.num 6)))
       (P.bin (.cmp .ne) (P.attr ['k']) (P.lit (.str ['x'])))) = true := by decide
+
+/-! #### Evaluated instances (the exact number structure `ratNum`, AHP/Lemmas/XPathNum.lean) -/
+
+/-- `<div><p n="9">a</p><p n="10">b</p><span><p n="7" k="x"></p></span></div>` -/
+def exDoc : Doc := [
+  ⟨"div".toList, none, [], []⟩,
+  ⟨"p".toList, some 0, [("n".toList, "9".toList)], "a".toList⟩,
+  ⟨"p".toList, some 0, [("n".toList, "10".toList)], "b".toList⟩,
+  ⟨"span".toList, some 0, [], []⟩,
+  ⟨"p".toList, some 3, [("n".toList, "7".toList), ("k".toList, "x".toList)], []⟩]
+
+/-- `//p[@n > 9]` -/
+def exGt : List (SurfStep Q) :=
+  [{ dbl := true, axis := none, name := "p".toList,
+     preds := [.bin (.cmp .gt) (.attr "n".toList) (.num ⟨false, [9], none⟩ (Q.ofNat 9))] }]
+
+/-- `/div/p[2]` and `//p[@k != "x"]` -/
+def exNth : List (SurfStep Q) :=
+  [{ dbl := false, axis := none, name := "div".toList, preds := [] },
+   { dbl := false, axis := none, name := "p".toList, preds := [.num ⟨false, [2], none⟩ (Q.ofNat 2)] }]
+def exNe : List (SurfStep Q) :=
+  [{ dbl := true, axis := none, name := "p".toList, preds := [.bin (.cmp .ne) (.attr "k".toList) (.str "x".toList)] }]
+
+/-- **An evaluated query, numeric comparison.**  `//p[@n > 9]` on `exDoc` from the parser: the hypotheses of
+    `text_evaluate_eq_denotation` / `entry_points_denote` hold, and the text — through the tokenizer, the constant
+    folder and the step driver (`compileText`, `evaluate`), through the specification (`specEval`), and through the
+    entry points — selects the one `<p>` whose `n` is 10: a non-empty result; compared as strings, `"10" > "9"` would
+    be false and nothing would be selected.  From the `<span>` nothing is selected (its `<p>` has `n="7"`). -/
+example :
+    renderExpr Style.canon exGt = "//p[@n > 9]".toList ∧
+    (∀ s ∈ exGt, s.wf ratNum) ∧ (∀ s ∈ exGt, ∀ p ∈ s.preds, P.wf 3 p.toP = true) ∧ PreOrder exDoc ∧
+    exDoc.rootNodes false = [0] ∧
+    (compileText ratNum "//p[@n > 9]".toList).bind (fun cs => evaluate ratNum exDoc cs [0]) = some [2] ∧
+    specEval ratNum exDoc (exGt.map SurfStep.toSStep) [0] = some [2] ∧
+    ParserEntry.getElementsByXPathExpression.run (compileText ratNum) ratNum exDoc false "//p[@n > 9]".toList = some [2] ∧
+    (ParserEntry.evaluate .default).run (compileText ratNum) ratNum exDoc false "//p[@n > 9]".toList = some [2] ∧
+    TagEntry.getElementsByXPath.run (compileText ratNum) ratNum exDoc 3 "//p[@n > 9]".toList = some [] := by
+  refine ⟨by decide +kernel, ?_, ?_, preorder_check_sound exDoc (by decide +kernel), by decide +kernel, by decide +kernel,
+    by decide +kernel, by decide +kernel, by decide +kernel, by decide +kernel⟩
+  · intro s hs
+    simp only [exGt, List.mem_cons, List.not_mem_nil, or_false] at hs
+    subst hs
+    simp [SurfStep.wf, tagNameOk, isNameStart, isAlpha, S.wfs, S.wf, NumLit.wf, NumLit.text, attrNameOk, ratNum]
+    decide +kernel
+  · intro s hs p hp
+    simp only [exGt, List.mem_cons, List.not_mem_nil, or_false] at hs
+    subst hs
+    simp only [List.mem_cons, List.not_mem_nil, or_false] at hp
+    subst hp
+    simp [S.toP, P.wf, Op.cls]
+
+/-- **Evaluated queries, position and absent attribute.**  `/div/p[2]` selects the second `<p>` among the children of
+    `<div>` (row 2; the `<p>` inside `<span>` is the first of *its* parent); `//p[@k != "x"]` selects the two `<p>` that
+    have no `k` at all (true for `!=`) and not the one whose `k` is `x`; `//p[@k = "x"]` selects only that one.  Engine on
+    the text and specification on the syntax agree, with non-empty results; `specPos` reads the same positions off
+    the table. -/
+example :
+    renderExpr Style.canon exNth = "/div/p[2]".toList ∧ renderExpr Style.canon exNe = "//p[@k != \"x\"]".toList ∧
+    (compileText ratNum "/div/p[2]".toList).bind (fun cs => evaluate ratNum exDoc cs (exDoc.rootNodes false)) = some [2] ∧
+    specEval ratNum exDoc (exNth.map SurfStep.toSStep) (exDoc.rootNodes false) = some [2] ∧
+    [1, 2, 4].map (specPos exDoc) = [1, 2, 1] ∧
+    (compileText ratNum "//p[@k != \"x\"]".toList).bind (fun cs => evaluate ratNum exDoc cs (exDoc.rootNodes false)) = some [1, 2] ∧
+    specEval ratNum exDoc (exNe.map SurfStep.toSStep) (exDoc.rootNodes false) = some [1, 2] ∧
+    (compileText ratNum "//p[@k = \"x\"]".toList).bind (fun cs => evaluate ratNum exDoc cs (exDoc.rootNodes false)) = some [4] ∧
+    CollEntry.getElementsByXPathExpression.run (compileText ratNum) ratNum exDoc [3, 0, 3] "/p[last()]".toList = some [4, 2] := by
+  refine ⟨by decide +kernel, by decide +kernel, by decide +kernel, by decide +kernel, by decide +kernel, by decide +kernel,
+    by decide +kernel, by decide +kernel, by decide +kernel⟩
+
+/-- ASCII upper case -/
+def upperAscii (c : Char) : Char := if 'a' ≤ c ∧ c ≤ 'z' then Char.ofNat (c.toNat - 32) else c
+
+/-- the canonical layout with every word (function names, axes, word operators) in upper case -/
+def shout : Style := { Style.canon with word := fun _ w => w.map upperAscii }
+
+def exUp : List (SurfStep Q) :=
+  [{ dbl := true, axis := none, name := "DIV".toList, preds := [.contains (.attr "k".toList) (.str "x".toList)] },
+   { dbl := false, axis := some .ancestor, name := "P".toList,
+     preds := [.bin (.bool .or) .last (.bin (.arith .mod) .position .last)] }]
+def exLo : List (SurfStep Q) :=
+  [{ dbl := true, axis := none, name := "div".toList, preds := [.contains (.attr "k".toList) (.str "x".toList)] },
+   { dbl := false, axis := some .ancestor, name := "p".toList,
+     preds := [.bin (.bool .or) .last (.bin (.arith .mod) .position .last)] }]
+
+/-- Non-vacuity of `names_case_insensitive`: the upper-case text and the lower-case text are tokenized alike. -/
+example :
+    renderExpr shout exUp = "//DIV[CONTAINS(@k, \"x\")]/ANCESTOR::P[LAST() OR POSITION() MOD LAST()]".toList ∧
+    renderExpr Style.canon exLo = "//div[contains(@k, \"x\")]/ancestor::p[last() or position() mod last()]".toList ∧
+    parseExpr ratNum "//DIV[CONTAINS(@k, \"x\")]/ANCESTOR::P[LAST() OR POSITION() MOD LAST()]".toList =
+      parseExpr ratNum "//div[contains(@k, \"x\")]/ancestor::p[last() or position() mod last()]".toList := by
+  have h1 : renderExpr shout exUp =
+      "//DIV[CONTAINS(@k, \"x\")]/ANCESTOR::P[LAST() OR POSITION() MOD LAST()]".toList := by decide +kernel
+  have h2 : renderExpr Style.canon exLo =
+      "//div[contains(@k, \"x\")]/ancestor::p[last() or position() mod last()]".toList := by decide +kernel
+  refine ⟨h1, h2, ?_⟩
+  rw [← h1, ← h2]
+  refine (names_case_insensitive ratNum shout Style.canon exUp exLo ?_ ?_ ?_).1
+  · intro s hs
+    simp only [exUp, List.mem_cons, List.not_mem_nil, or_false] at hs
+    rcases hs with rfl | rfl <;>
+      simp [SurfStep.wf, tagNameOk, isNameStart, isNameChar, isAlpha, S.wfs, S.wf, attrNameOk, strOk]
+  · intro s hs
+    simp only [exLo, List.mem_cons, List.not_mem_nil, or_false] at hs
+    rcases hs with rfl | rfl <;>
+      simp [SurfStep.wf, tagNameOk, isNameStart, isNameChar, isAlpha, S.wfs, S.wf, attrNameOk, strOk]
+  · exact .cons ⟨rfl, rfl, by decide, rfl⟩ (.cons ⟨rfl, rfl, by decide, rfl⟩ .nil)
+
+/-- the entry points differ only here: an empty collection and a text the constructor rejects -/
+example :
+    CollEntry.getElementsByXPath.run (compileText ratNum) ratNum exDoc [] "//p[".toList = some [] ∧
+    CollEntry.exprEvaluate.run (compileText ratNum) ratNum exDoc [] "//p[".toList = none := by
+  refine ⟨by decide +kernel, by decide +kernel⟩
 
 end AHP.C14
